@@ -32,9 +32,9 @@ theorem sendAll_tx (pad : Pad) (s : Proto) (hq : ∀ h ∈ s.handlers, h.2.sends
   | cons e es ih =>
     have hh := send_handlers s (encode pad e)
     have ha := send_addr s (encode pad e)
-    have hsends : (s.handlers.map Prod.snd).flatMap (·.sends) = [] := by
+    have hsends : (s.handlers.map Prod.snd).flatMap (fun h => wireSends s.addr h.sends) = [] := by
       simp only [List.flatMap_eq_nil_iff, List.mem_map]
-      rintro h ⟨x, hx, rfl⟩; exact hq x hx
+      rintro h ⟨x, hx, rfl⟩; rw [hq x hx]; rfl
     have haddr : (encode pad e).addr = e.receiver := by cases e <;> rfl
     obtain ⟨c1, c2, c3⟩ := sendPacket_spec s (encode pad e)
     have step : txOf (s.sendPacket (encode pad e)).1.log =
